@@ -33,6 +33,10 @@ def run(check: Check, repo: Repo, tier: str) -> None:
     mods = [m for m in repo.package_modules("validation.rules") if ".custom" not in m.name]
     V.error_discipline(check, repo, mods)
     V.parallel_stacks(check, repo, classes)
+    V.operation_scoped(check, repo, mods)
+    check.floor("OPERATION-SCOPED", 2, "per-operation containers of validation rules")
+    from rules import merge_rules as M
+    M.subsumption(check, repo)
     V.typeinfo_balance(check, repo, classes)
     from rules import exec_rules as X
     em = repo.package_modules("execution")
